@@ -10,13 +10,15 @@ where
 {
     fn clone(&self) -> Self {
         let mut m = Self::new();
-        m.len = self.len;
         m.pairs
             .iter_mut()
             .zip(self.pairs[..self.len].iter())
             .for_each(|(dst, src)| unsafe {
                 dst.write(src.assume_init_ref().clone());
             });
+        // Count the elements only once they all exist: if a `clone()` panics,
+        // the partially built map must not drop slots that were never written.
+        m.len = self.len;
         m
     }
 }
